@@ -150,6 +150,54 @@ def worker(kp, job):
     return {'records': records}
 
 
+def long_worker(kp, job):
+    """a LONG score (some 300 measures, signatures before the first measure): excerpts far down and up to the last measure
+    are well formed, re-import without errors and keep the signatures in force"""
+    seed, idx = job
+    rng = random.Random(seed * 553105253 + idx)
+    nm = rng.randint(262, 320)
+    lines = ['**kern\t**kern', '*clefG2\t*clefF4', '*k[f#]\t*k[f#]', '*M3/4\t*M3/4']
+    notes = ['4c', '4d', '8e', '2f', '4g', '4a', '4b', '4cc']
+    for m in range(1, nm + 1):
+        lines.append(f'={m}\t={m}')
+        for _ in range(rng.randint(1, 2)):
+            lines.append(rng.choice(notes) + '\t' + rng.choice(notes))
+    lines += ['==\t==', '*-\t*-']
+    text = '\n'.join(lines) + '\n'
+    viol = []
+    w = {'text_lines': len(lines), 'measures_written': nm, 'first_lines': lines[:6]}
+    try:
+        doc, errs = kp.loads(text)
+        M = doc.measures_count()
+        want_sigs = {'clef', 'key', 'meter'}
+        for a, b_ in [(M, M), (M - 1, M), (256, 257), (257, 258), (rng.randint(258, M - 2), M), (2, 3)]:
+            tag = f'long score of {M} measures, excerpt {a}..{b_}'
+            try:
+                out = kp.dumps(doc, from_measure=a, to_measure=b_)
+            except Exception as e:
+                viol.append(('excerpt-raises', f'{tag} raised {type(e).__name__}', dict(w, pair=[a, b_])))
+                continue
+            prob, notes_ = wellformed_and_signatures(out)
+            if prob:
+                viol.append(('well-formed', f'{tag}: {prob}', dict(w, pair=[a, b_])))
+                continue
+            try:
+                d2, e2 = kp.loads(out)
+                if e2:
+                    viol.append(('reimport', f'{tag} re-imports with {len(e2)} errors', dict(w, pair=[a, b_])))
+            except Exception as e:
+                viol.append(('reimport', f'{tag} does not re-import: {type(e).__name__}', dict(w, pair=[a, b_])))
+            for n1, s1 in notes_:
+                if set(s1) != want_sigs or s1.get('clef') not in ('*clefG2', '*clefF4') or s1.get('key') != '*k[f#]' or s1.get('meter') != '*M3/4':
+                    viol.append(('signatures-in-force', f'{tag}: note {n1!r} is governed by {s1}, in the full score by a clef, *k[f#] and *M3/4', dict(w, pair=[a, b_])))
+                    break
+    except BaseException as e:
+        if e.__class__.__name__ == 'JobTimeout':
+            raise
+        viol.append(('excerpt-raises', f'long score ({len(lines)} lines): {type(e).__name__}', w))
+    return {'records': [engine.rec('long', viol=viol[:3], kind='long-score', key=('long', idx, len(lines)))]}
+
+
 def run(chk):
     b = core.standard_build(chk)
     model = core.Model() if b.modelrun_ok else None
@@ -157,8 +205,9 @@ def run(chk):
     n = core.budget(chk, full, 90, 480)
     chk.rule = ('generated **kern documents, half in the claimed core class (signatures before the first measure, splits '
                 're-joined before the next barline; some with a spine that ends before the others), the rest with mid-score signature changes, splits left open across barlines, '
-                'or non-kern spines beside the kern ones, x EVERY measure range; non-trivial = distinct (text, a, b)')
+                'or non-kern spines beside the kern ones, x EVERY measure range; plus scores of 260-320 measures with excerpts far down and up to the last measure; non-trivial = distinct (text, a, b)')
     results = engine.pmap(worker, [(chk.seed, i) for i in range(n)])
+    results += engine.pmap(long_worker, [(chk.seed, i) for i in range(2 if not full else 6)], nproc=6)
     engine.settle(chk, results, model)
     chk.disagreements_checked = len(chk.broken)
 
